@@ -148,7 +148,11 @@ def run(rep, tier, seed):
         "index-1 DAE order conditions (two-colour trees) are not yet proved in Lean; DAE behaviour is covered by the ladders only"]
     changed, data = rodas_tables.write(LEAN)
     rep.cov["tables_regenerated"] = bool(changed)
-    failed = rep.add_proof(prove("C07"))
+    # thorough tier: the index-1 DAE order conditions too (Properties/C07dae*.lean, ~10 min of kernel evaluation when not cached)
+    dae_files = ["C07daeDefs", "C07daeRodas4", "C07daeRodasp", "C07daeRodas5pY", "C07daeRodas5pZ"] if tier == "thorough" else []
+    rep.cov["index1_dae_conditions"] = ("decided in Lean on 441 y-trees / 220 z-trees (rodas5p: y order 5, z order 4; rodas4, rodasp: 4 / 4; "
+                                        "embedded one lower)" if dae_files else "thorough tier only; h-ladders on index-1 problems in this tier")
+    failed = rep.add_proof(prove("C07", extra_files=dae_files))
     rng = np.random.default_rng(seed)
     # ---- K: stage loop and dense output
     lines, real, meta = [], [], []
